@@ -914,7 +914,11 @@ impl Storage {
         let mut batch = self.batch();
 
         for ss in scripts {
-            if ss.block_number >= to_number {
+            // The history of a script whose block number is less than `to_number` is scanned too:
+            // the process could have been interrupted after blocks were filtered but before the
+            // block numbers of the scripts were updated.
+            let is_filtered_to_number = ss.block_number >= to_number;
+            {
                 let script = ss.script;
                 let mut key_prefix = vec![match ss.script_type {
                     ScriptType::Lock => KeyPrefix::TxLockScript as u8,
@@ -1042,7 +1046,7 @@ impl Storage {
                     });
 
                 // update script filter block number
-                {
+                if is_filtered_to_number {
                     let mut key = Key::Meta(FILTER_SCRIPTS_KEY).into_vec();
                     key.extend_from_slice(script.as_slice());
                     key.extend_from_slice(match ss.script_type {
